@@ -2,10 +2,13 @@
 # seeded_matrix.sh [quick|thorough]: apply every kept seeded change to /repo in turn, run the
 # check(s) named in its meta.json (check_with; normally the property it breaks), undo it,
 # and print one line per change. Expected: every line says CAUGHT.
+# REVERSE=1 walks the list backwards (two copies can meet in the middle).
 # FILTER=<regex on the directory name> restricts the run (e.g. FILTER='-r(9|10)m').
 # (About 1.5 min per change: each one rebuilds jawk.)
 cd /verif || exit 2
-for d in seeded/*/; do
+LIST=$(ls -d seeded/*/)
+if [ -n "$REVERSE" ]; then LIST=$(echo "$LIST" | sort -r); fi
+for d in $LIST; do
     n=$(basename "$d")
     if [ -n "$FILTER" ] && ! echo "$n" | grep -Eq -- "$FILTER"; then continue; fi
     ids=$(python3 -c "import json;print(' '.join(json.load(open('$d/meta.json'))['check_with']))")
